@@ -447,6 +447,35 @@ func driveC19(c *driverCtx) error {
 			v := reflect.New(typ).Elem()
 			v.Field(0).Set(reflect.ValueOf(t))
 			emitCS(c, "C19", fmt.Sprintf("C19|write|%s|exact=%v|%s", shortSchema(sch), exact, signClass(t)), sj, typ, v, exact)
+			if k%4 == 1 {
+				// the same instant seen from another zone (its civil date may differ from the UTC date): the stored
+				// integer depends on the instant only; the offset cannot come back, so identity is not demanded
+				off := []int{-5 * 3600, 14 * 3600, -12 * 3600, 5*3600 + 45*60, -30 * 60, 3600}[k/4%6]
+				vz := reflect.New(typ).Elem()
+				vz.Field(0).Set(reflect.ValueOf(t.In(time.FixedZone("", off))))
+				emitCS(c, "C19", fmt.Sprintf("C19|write-zoned|%s|%s", shortSchema(sch), signClass(t)), sj, typ, vz, false)
+			}
+		}
+		// several times behind pointers in one record (their slots come from one bank)
+		type T3 struct {
+			A *time.Time `json:"a"`
+			B *time.Time `json:"b"`
+			C *time.Time `json:"c"`
+		}
+		s3 := `{"type":"record","name":"T3","fields":[{"name":"a","type":["null",` + sch + `]},{"name":"b","type":[` + sch + `,"null"]},{"name":"c","type":["null",` + sch + `]}]}`
+		for k := 0; k < c.pick(30, 2000); k++ {
+			v := reflect.New(reflect.TypeOf(T3{})).Elem()
+			for f := 0; f < 3; f++ {
+				if c.rng.Intn(5) == 0 {
+					continue
+				}
+				t := genTimeFor(c.rng, sch, true)
+				if t.IsZero() {
+					continue
+				}
+				v.Field(f).Set(reflect.ValueOf(&t))
+			}
+			emitCS(c, "C19", fmt.Sprintf("C19|pointers|%s", shortSchema(sch)), s3, reflect.TypeOf(T3{}), v, true)
 		}
 	}
 	return nil
